@@ -17,21 +17,21 @@ Definition aop_ok (used : nat -> Prop) (dimof : nat -> adim) (x : op adim aprop)
   | Read _ _ => True
   end.
 
+(* after the repair of translate_element_id(None) the former hypothesis H1 (the shim does not raise
+   on the pristine dict and leaves no None in a list slot) is a THEOREM (shim_xf_total,
+   shim_xf_fixed): what remains is a condition on the dimensions alone *)
 Theorem array_reads_pure (ts : nat -> xf) (used : nat -> Prop) (dimof : nat -> adim) ops :
   (forall i, used i -> ~ In key_str (aliases (dimof i))) ->
-  (* H1: the shim does not raise on the pristine dict and leaves no None in a list slot *)
-  (forall i, used i -> snd (shim_xf (dimof i) (ts i)) = None) ->
-  (forall i, used i -> no_none_lists (fst (shim_xf (dimof i) (ts i)))) ->
+  (forall i, used i -> ids_not_none (dimof i)) ->
   (* H2: dict i is only ever used with the dimension dimof i *)
   Forall (aop_ok used dimof) ops ->
   arun ts ops = arun_pristine ts ops.
 Proof.
-  intros HK H1a H1b H2. unfold arun, arun_pristine.
+  intros HK HN H2. unfold arun, arun_pristine.
   apply (reads_pure adim xf aprop aval shim_xf acons aprop_eqb (fun _ => true) aprop_eqb_sound
            ts used dimof).
-  - exact H1a.
-  - intros i U. apply (shim_xf_idem (dimof i) (ts i)); [apply HK; exact U| |apply H1b; exact U].
-    rewrite (surjective_pairing (shim_xf (dimof i) (ts i))). rewrite (H1a i U). reflexivity.
+  - intros i U. apply shim_xf_total. exact (proj1 (HN i U)).
+  - intros i U. apply shim_xf_fixed; [apply HK; exact U | apply HN; exact U].
   - exact H2.
 Qed.
 
